@@ -509,7 +509,11 @@ class C15(Check):
             'within 30 x the residual-evaluation bound; HMF data with S/N up to 3e6 and units 1e-5..1e5, HMF.badness() compared with the '
             'chi-square of the returned factors; standing sub-classes: seed=0, epsilon=0.0, 2-variable pcomp; '
             'shape boundaries: computechi2 N == M (non-symmetric square), M+1, M+2, (N,1), 1x1, zero weights leaving exactly M / M+1 used rows; '
-            'pcomp nobs == nvar, nvar +- 1; HMF with N == K, K+1, K == 1, M == K+1, K+2; pca_solve with nobj == nkeep, nkeep == 1, npix == nkeep+1, '
+            'pcomp nobs == nvar, nvar +- 1; pcomp_design: variables that are small-integer combinations of balanced orthogonal two-level '
+            'design columns (Hadamard order 8-64, replicated, shuffled; integer / power-of-two / arbitrary units, int64 and float64), so the '
+            'matrix is exactly block diagonal (isolated variable first / last / in the middle), exactly diagonal, has an exactly '
+            'equal-variance pair or an exactly duplicated variable - eigenvectors with exactly zero loadings, loadings summing to exactly '
+            'zero, tied and exactly zero eigenvalues; HMF with N == K, K+1, K == 1, M == K+1, K+2; pca_solve with nobj == nkeep, nkeep == 1, npix == nkeep+1, '
             'npix == nobj, nobj+1; '
             'hmf_direct: astep/gstep/astepnn/gstepnn called directly on objects whose a, g were set (random, or from a solve), incl. pixels without '
             'data in any spectrum for epsilon > 0 and spectra without data, exact-optimum steps also compared with an independent dense SVD '
